@@ -24,6 +24,14 @@ def atoms_of(t):
 
 def check(ctx):
     p = ctx.prog
+    # calls through base-class references reach the derived implementation
+    no_hiding_in_hierarchy(ctx, 'dyn.overrides_are_virtual')
+    # the callbacks receive the whole checkpoint (no slicing copy)
+    by_reference_parameters(ctx, 'dyn.no_slicing', ['hep::callback::operator()', 'hep::mpi_callback::operator()'], 3)
+    # no state survives from one call to the next in a function-local static
+    no_static_state(ctx, 'state.no_static_locals')
+    # no constructor of the classes this property computes with leaves a member indeterminate
+    members_initialised(ctx, 'init.members', ['hep::chkpt', 'hep::chkpt_with_rng', 'hep::plain_chkpt', 'hep::vegas_chkpt', 'hep::multi_channel_chkpt'], 8)
     ctx.assume('libm (pow, log) and the stream operators of the engines are deterministic functions '
                'of their inputs (bit-reproducible between the interrupted and the resumed process)')
     # ---------------------------------------------------------------- R1 drivers
